@@ -26,8 +26,11 @@ def rotatedPlanar3DCodeQuery (Lx Ly Lz : Nat) : List String → Option String
   | ["type", c] =>
     some ((RotatedPlanar3DCode.stabilizerType Lx Ly Lz (parseCoord c)).getD "ERR value")
   | ["deform", name, axis, c] =>
-    some (match RotatedPlanar3DCode.getDeformation Lx Ly Lz name axis (parseCoord c) with
+    -- `-` = the keyword argument `deformation_axis` is omitted
+    some (match RotatedPlanar3DCode.getDeformation Lx Ly Lz name (if axis == "-" then none else some axis)
+        (parseCoord c) with
       | none => "ERR value" | some m => Lat3Db.showPauliMap m)
+  | ["rankfamily"] => some (rotatedPlanar3DCodeShowCoords (RotatedPlanar3DCode.selStabs Lx Ly Lz))
   | ["n"] => some (toString (RotatedPlanar3DCode.lattice Lx Ly Lz).toCodeData.n)
   | ["k"] => some (toString (RotatedPlanar3DCode.lattice Lx Ly Lz).toCodeData.k)
   | _ => none
